@@ -20,6 +20,8 @@
 (*   bempty  one record per BLOCKING next_result()/results_iter() step that signalled the    *)
 (*           end of the stream (raised queue.Empty): nread = valid results read before it,  *)
 (*           nenq = enqueues accepted before it                                             *)
+(*   hung    the calls that did not return within their bound (the replay only issues calls *)
+(*           that the specification marks as returning): operation names, e.g. "nextnb"     *)
 (*   first   outcome of the first enqueue attempted before any close/death ("none" if none) *)
 (*   alive0  is_alive() immediately after construction / restart                            *)
 (*   waited  "T" iff the final wait() returned True ("none": not the last incarnation)      *)
@@ -86,6 +88,11 @@ C05_Count(r) == LET I == LastInc(r) IN
 C05_End(r) == \A i \in 1..Len(Incs(r)) : LET I == Incs(r)[i] IN
    I.fault = "none" => \A j \in 1..Len(I.bempty) : I.bempty[j].nread = I.bempty[j].nenq
 
+\* every call of an enabled history returns (a non-blocking next_result, an enqueue, close, is_alive at once;
+\* wait / call / a blocking next_result with something outstanding when the child has got there)
+RestartOps == {"restart", "restartP", "restartT", "restartTnf", "restartK", "restartKP"}
+C05_Returns(r) == \A i \in 1..Len(Incs(r)) : \A j \in 1..Len(Incs(r)[i].hung) : Incs(r)[i].hung[j] \in RestartOps
+
 \* enqueue after close() or after death raises WorkerClosedError
 C05_Closed(r) == \A i \in 1..Len(Incs(r)) : \A j \in 1..Len(Incs(r)[i].late) : Incs(r)[i].late[j] = "WCE"
 
@@ -105,6 +112,11 @@ Restarted(r) == 2..Len(Incs(r))          \* incarnations created by a successful
 C17_Live(r) ==
    /\ \A i \in Restarted(r) : Incs(r)[i].alive0 = "T" /\ Incs(r)[i].first \in {"ok", "none"}
    /\ \A i \in 1..Len(Incs(r)) : Len(Incs(r)[i].rraised) > 0 => Incs(r)[i].fault = "stuck"
+
+\* restart() itself returns (or raises), and the worker it returns is usable: nothing hangs on it
+C17_Returns(r) ==
+   /\ \A i \in 1..Len(Incs(r)) : \A j \in 1..Len(Incs(r)[i].hung) : Incs(r)[i].hung[j] \notin RestartOps
+   /\ \A i \in 2..Len(Incs(r)) : Len(Incs(r)[i].hung) = 0
 
 \* same target, defaults, name and userid
 C17_Equivalent(r) == \A i \in Restarted(r) :
